@@ -174,6 +174,72 @@ def run(ctx):
                 ctx.fail("partial:%s:ack_sequence" % cls, "acknowledgement numbers are not consecutive", {"class": cls, "seqs": seqs})
         if h < 2:
             ctx.sample({"block0": list(blk0)[:16], "events": [(e[0], list(e[1])[:12]) if e[0] == "P" else (e[0], e[1], list(e[2])[:6]) for e in evs[:5]]})
+    # ---- the whole async client: partial updates that arrive WHILE a status-block refresh (or any other request) is outstanding are applied
+    #      and acknowledged at once, in arrival order - they do not wait for the exchange in progress
+    from harness import vloop, session
+
+    def during_refresh(seed):
+        import random
+        r2 = random.Random(seed)
+
+        async def main(loop):
+            slow = [0.0]
+
+            def script(direction, data):
+                if direction == "down" and b"<DATAS>STATV" in data:
+                    return [(0.02 + slow[0], data)]
+                return [(0.0 if direction == "up" else 0.02, data)]
+            peer = session.Peer(loop, "inYT-all off-2020-10-23 18_00_45.snapshot", latency=0.02, script=script)
+            cl = session.Client(peer)
+            if not await cl.connect(with_facade=False):
+                return None
+            await asyncio.sleep(1.0)
+            spa = cl.spa
+            for t in cl.taskman._tasks:
+                if t.get_name() in ("SPA:Refresh loop",):
+                    t.cancel()
+            from geckolib.driver import GeckoStatusBlockProtocolHandler
+            out = []
+            for rnd in range(3):
+                slow[0] = r2.choice([0.9, 1.6, 2.4])
+                n0 = len(peer.raw)
+                ref = loop.create_task(spa.struct.get(spa._protocol, lambda: GeckoStatusBlockProtocolHandler.full_request(
+                    spa._protocol.get_and_increment_sequence_counter(False), parms=spa.sendparms)))
+                pushes = []
+                # only pushes that reach the client BEFORE the (delayed) reply does: behind the reply's segments a datagram waits its turn in the queue
+                for j in range(max(1, int((slow[0] - 0.15) / 0.6))):
+                    await asyncio.sleep(r2.choice([0.05, 0.1, 0.15]))
+                    val = 60.0 + r2.randrange(40)
+                    peer.spontaneous("DisplayedTempG", val)
+                    await asyncio.sleep(0.45)      # latency + two polling intervals of the partial-update consumer
+                    pushes.append((val, spa.accessors["DisplayedTempG"].value, ref.done()))
+                await asyncio.sleep(slow[0] + 6.0)
+                for _ in range(400):
+                    # whatever is left of the exchange (segments of a chain that was asked for again) drains before the next round
+                    if spa._protocol.queue.qsize() == 0:
+                        break
+                    await asyncio.sleep(0.5)
+                acks = sum(1 for (t, d) in peer.raw[n0:] if b"<DATAS>STATQ" in d)
+                out.append(dict(pushes=pushes, acks=acks, refresh_ok=ref.done() and not ref.cancelled() and bool(ref.result()),
+                                mirror=spa.struct.status_block == peer.sim.structure.status_block, slow=slow[0]))
+                slow[0] = 0.0
+            await cl.close()
+            return out
+        return vloop.run(main)
+    for k in range(4 if ctx.thorough else 2):
+        rounds = during_refresh(ctx.seed * 100 + k) or []
+        for rd in rounds:
+            ctx.count("partial_updates_during_an_outstanding_refresh", len(rd["pushes"]))
+            ctx.case(("during_refresh", k, str(rd["pushes"])), nontrivial=True)
+            late = [(v, got) for (v, got, done) in rd["pushes"] if not done and got != v]
+            if late:
+                ctx.fail("partial:async:waits_for_exchange", "a partial update that arrived while a status-block request was outstanding was not applied when it arrived: the spa reported %r, "
+                         "0.45 s later the client still reads %r (request answered %.1f s later)" % (late[0][0], late[0][1], rd["slow"]), {"pushes": rd["pushes"], "reply_delay_s": rd["slow"]})
+                break
+            if rd["acks"] != len(rd["pushes"]):
+                ctx.fail("partial:async:ack_during_exchange", "%d partial updates arrived while a status-block request was outstanding, %d were acknowledged" % (len(rd["pushes"]), rd["acks"]),
+                         {"pushes": rd["pushes"], "acks": rd["acks"], "reply_delay_s": rd["slow"]})
+                break
     res = ctx.coq_cases("hist", HEADER, exprs, shard=20)
     bad = [m for m, r in zip(meta, res) if r is not True]
     if bad:
